@@ -1,9 +1,9 @@
 package medialib
 
 import (
-	"sync/atomic"
 	"fmt"
 	"strings"
+	"sync/atomic"
 	"time"
 
 	"github.com/cnotch/ipchub/av/format/rtp"
@@ -13,14 +13,14 @@ import (
 
 // Op of a sequential script
 type Op struct {
-	Code  byte     // P J S X T R
-	Kind  Kind     // P
-	Extra int      // P
-	Name  int      // J S T R
-	Gop   bool     // J
-	Panic int      // J
-	Raw   *RawSpec // P with arbitrary NAL types
-	SameTs bool    // P: the packet carries the RTP timestamp of the previously published packet (same access unit)
+	Code   byte     // P J S X T R
+	Kind   Kind     // P
+	Extra  int      // P
+	Name   int      // J S T R
+	Gop    bool     // J
+	Panic  int      // J
+	Raw    *RawSpec // P with arbitrary NAL types
+	SameTs bool     // P: the packet carries the RTP timestamp of the previously published packet (same access unit)
 }
 
 func (o Op) String() string {
@@ -94,52 +94,68 @@ func (sc Script) RunImpl(expected []string) (int, string, string) {
 	}()
 	recs := map[int]*Rec{}
 	for i, o := range sc.Ops {
-		switch o.Code {
-		case 'P':
-			var perr error
-			if o.Raw != nil {
-				raw := *o.Raw
-				_, _, perr = w.PublishWith(func(uid uint32) *rtp.Packet { return w.stamp(MkRaw(uid, raw, sc.Hevc), o.SameTs) })
-			} else {
-				kind, extra, same := o.Kind, o.Extra, o.SameTs
-				_, _, perr = w.PublishWith(func(uid uint32) *rtp.Packet { return w.stamp(MkPkt(uid, kind, sc.Hevc, extra), same) })
-			}
-			if perr == nil {
-				published++
-			}
-			if catchUp && perr == nil {
-				// let the stream's own demuxer take the packet (it passes its pop once at start and once
-				// per packet); no verdict hangs on this wait, a demuxer that died just ends the waiting
-				catchUp = Eventually(2*time.Second, func() bool { return atomic.LoadInt64(&demuxPops) >= pops0+1+published })
-				if !catchUp {
-					atomic.AddInt64(&CatchUpLost, 1)
+		o := o
+		done := make(chan struct{})
+		var blockedOp bool
+		go func() {
+			defer close(done)
+			switch o.Code {
+			case 'P':
+				var perr error
+				if o.Raw != nil {
+					raw := *o.Raw
+					_, _, perr = w.PublishWith(func(uid uint32) *rtp.Packet { return w.stamp(MkRaw(uid, raw, sc.Hevc), o.SameTs) })
+				} else {
+					kind, extra, same := o.Kind, o.Extra, o.SameTs
+					_, _, perr = w.PublishWith(func(uid uint32) *rtp.Packet { return w.stamp(MkPkt(uid, kind, sc.Hevc, extra), same) })
+				}
+				if perr == nil {
+					published++
+				}
+				if catchUp && perr == nil {
+					// let the stream's own demuxer take the packet (it passes its pop once at start and once
+					// per packet); no verdict hangs on this wait, a demuxer that died just ends the waiting
+					catchUp = Eventually(2*time.Second, func() bool { return atomic.LoadInt64(&demuxPops) >= pops0+1+published })
+					if !catchUp {
+						atomic.AddInt64(&CatchUpLost, 1)
+					}
+				}
+			case 'J':
+				if _, dup := recs[o.Name]; !dup {
+					r := w.NewRec()
+					r.Name = o.Name
+					r.PanicAt = o.Panic
+					recs[o.Name] = r
+					w.Join(r, o.Gop)
+					if sc.MaxQ > 0 {
+						w.S.VerifSetMaxQLen(r.CID, sc.MaxQ)
+					}
+				}
+			case 'S':
+				if r := recs[o.Name]; r != nil {
+					w.S.StopConsume(r.CID)
+				}
+			case 'X':
+				w.S.Close()
+			case 'T':
+				if r := recs[o.Name]; r != nil {
+					r.Stall()
+				}
+			case 'R':
+				if r := recs[o.Name]; r != nil {
+					r.Resume()
 				}
 			}
-		case 'J':
-			if _, dup := recs[o.Name]; !dup {
-				r := w.NewRec()
-				r.Name = o.Name
-				r.PanicAt = o.Panic
-				recs[o.Name] = r
-				w.Join(r, o.Gop)
-				if sc.MaxQ > 0 {
-					w.S.VerifSetMaxQLen(r.CID, sc.MaxQ)
-				}
-			}
-		case 'S':
-			if r := recs[o.Name]; r != nil {
-				w.S.StopConsume(r.CID)
-			}
-		case 'X':
-			w.S.Close()
-		case 'T':
-			if r := recs[o.Name]; r != nil {
-				r.Stall()
-			}
-		case 'R':
-			if r := recs[o.Name]; r != nil {
-				r.Resume()
-			}
+		}()
+		select {
+		case <-done:
+		case <-time.After(opBudget):
+			blockedOp = true
+		}
+		if blockedOp {
+			// publish / join / stop / close never wait for a consumer: an operation that does not
+			// return is itself the failure (C04: nobody is blocked or delayed by a slow consumer)
+			return i, "blocked: the operation did not return (" + o.String() + ")", expectedAt(expected, i)
 		}
 		if i >= len(expected) {
 			return i, w.Observe(), "(no expectation)"
@@ -291,4 +307,14 @@ func genExtra(r *hlib.Rng) int {
 		return 8 + r.Intn(33)
 	}
 	return r.Intn(6)
+}
+
+func expectedAt(e []string, i int) string {
+	if len(e) == 0 {
+		return ""
+	}
+	if i >= len(e) {
+		i = len(e) - 1
+	}
+	return e[i]
 }
